@@ -3,6 +3,8 @@ package yqlib
 import (
 	"container/list"
 	"fmt"
+	"math"
+	"math/big"
 	"sort"
 	"strconv"
 	"strings"
@@ -120,7 +122,13 @@ func (a sortableNodeArray) compare(lhs *CandidateNode, rhs *CandidateNode, dateT
 		isDateTime = errLhs == nil && errRhs == nil
 	}
 
-	if lhsTag == "!!null" && rhsTag != "!!null" {
+	lhsIsNumber := lhsTag == "!!int" || lhsTag == "!!float"
+	rhsIsNumber := rhsTag == "!!int" || rhsTag == "!!float"
+
+	if lhsTag == "!!null" && rhsTag == "!!null" {
+		// null and ~ are the same value
+		return 0
+	} else if lhsTag == "!!null" && rhsTag != "!!null" {
 		return -1
 	} else if lhsTag != "!!null" && rhsTag == "!!null" {
 		return 1
@@ -165,24 +173,64 @@ func (a sortableNodeArray) compare(lhs *CandidateNode, rhs *CandidateNode, dateT
 		if err != nil {
 			panic(err)
 		}
-		return int(lhsNum - rhsNum)
-	} else if (lhsTag == "!!int" || lhsTag == "!!float") && (rhsTag == "!!int" || rhsTag == "!!float") {
-		lhsNum, err := strconv.ParseFloat(lhs.Value, 64)
-		if err != nil {
-			panic(err)
-		}
-		rhsNum, err := strconv.ParseFloat(rhs.Value, 64)
-		if err != nil {
-			panic(err)
-		}
+		// not lhsNum - rhsNum: the difference of two int64 can overflow
 		if lhsNum == rhsNum {
 			return 0
 		} else if lhsNum < rhsNum {
 			return -1
 		}
+		return 1
+	} else if lhsIsNumber && rhsIsNumber {
+		lhsNum, lhsNaN, err := sortableNumber(lhs, lhsTag)
+		if err != nil {
+			panic(err)
+		}
+		rhsNum, rhsNaN, err := sortableNumber(rhs, rhsTag)
+		if err != nil {
+			panic(err)
+		}
+		if lhsNaN || rhsNaN {
+			// NaN has no numeric order: keep the order total by putting it before every other number
+			if lhsNaN && rhsNaN {
+				return 0
+			} else if lhsNaN {
+				return -1
+			}
+			return 1
+		}
+		return lhsNum.Cmp(rhsNum)
+	}
 
+	if lhsIsNumber != rhsIsNumber && !isDateTime {
+		// numbers sort before everything that is compared as text; comparing a number with a
+		// string by its spelling is not transitive (2 < 10 < "15" < 2)
+		if lhsIsNumber {
+			return -1
+		}
 		return 1
 	}
 
 	return strings.Compare(lhs.Value, rhs.Value)
+}
+
+// sortableNumber reads a number for an exact comparison between integers and floats. Integers may be
+// spelled in hex or octal (which strconv.ParseFloat does not understand) and do not all fit a float64.
+func sortableNumber(node *CandidateNode, tag string) (*big.Float, bool, error) {
+	if tag == "!!int" {
+		_, num, err := parseInt64(node.Value)
+		return new(big.Float).SetInt64(num), false, err
+	}
+	switch strings.ToLower(node.Value) {
+	case ".inf", "+.inf":
+		return new(big.Float).SetInf(false), false, nil
+	case "-.inf":
+		return new(big.Float).SetInf(true), false, nil
+	case ".nan":
+		return nil, true, nil
+	}
+	num, err := strconv.ParseFloat(node.Value, 64)
+	if err != nil || math.IsNaN(num) {
+		return nil, math.IsNaN(num), err
+	}
+	return new(big.Float).SetFloat64(num), false, nil
 }
